@@ -9,17 +9,25 @@ CFG = {
         "Leptos.Reactive.C09_memo_at_most_once",
         "Leptos.Reactive.C09_run_justified",
         "Leptos.Reactive.C09_memo_run_justified",
+        "Leptos.Reactive.C09_effect_at_most_once_per_change",
     ],
     "harness_pkg": "hx-c01",
     "harness_bin": "c09",
     "n": {"quick": 3000, "thorough": 60000},
     "rule": "seeded generator of programs (signals, memos, 0-2 effects per stage, effects read >= 2 nodes in a chosen order) x histories of "
             "5-30 set/read/poll/idle ops; observable = how often each body ran per op; oracle = every invocation is justified (first run, "
-            "or a tracked input of the previous run was written / recomputed to an unequal value since); trivial = tag `plain` only",
-    "trusted": ["the harness counts invocations inside the real closures; versions (writes / changed recomputations) are kept by the harness"],
+            "or a tracked input of the previous run was written / recomputed to an unequal value since); trivial = tag `plain` only. "
+            "API surface (tags): `acc` (half of the cases; these read untracked twice as often) = accessor variety as in C01 incl. the five "
+            "untracked accessors, `ctor`, `split`, `memoc` (leaf memos with a coarse comparator: their own runs depend on their sources only); "
+            "`selector` (a sixth of the cases) = reactive_graph::computed::Selector with 1-4 keys, readers of every effect constructor / memos, "
+            "created before and after the selection moves; gated double reads (s, memo(s), s) for duplicate-edge bookkeeping",
+    "trusted": ["the harness counts invocations inside the real closures; versions (writes / changed recomputations) are kept by the harness",
+                "lean/LeptosModel/Model/ReactiveDriver.lean desugars `sel K e` into K flag signals + one render effect, `memoc` into `memo`, `acc` into nothing (header comment)"],
     "modelled": ["MemoInner::update_if_necessary (changed flag, Check resolution, skip-current-observer rule)", "EffectInner::{mark_dirty,mark_check,update_if_necessary}",
-                 "Effect::new task loop", "channel.rs Sender/Receiver"],
-    "assumptions": ["Effect::new, new_sync, new_isomorphic, watch and RenderEffect::new are driven; ImmediateEffect and Selector are not"],
+                 "Effect::new task loop", "channel.rs Sender/Receiver",
+                 "by correspondence only: accessor / constructor / handle-family variety, Selector (as per-key flag signals written by a render effect)"],
+    "assumptions": ["Effect::new, new_sync, new_isomorphic, watch, RenderEffect::new and Selector::new are driven; ImmediateEffect and Selector::new_with_fn / remove / clear are not",
+                    "a selector run's key bookkeeping (the harness keeps `selected(j) == (j == last source value)` as a versioned input) justifies the runs of its readers"],
     "manifest": {
         "category": "proof",
         "text": "PROVED: C09_run_justified_full - for every well-formed program of signals, memos and effects (tracked AND untracked reads), every history (writes incl. equal values, reads, "
